@@ -21,8 +21,13 @@
 (*  RemoveConn(c): push remove event; CS: connected? -> onDisconnected(c)  *)
 (*                                else park (pending += c); return RemStart *)
 (*                 [onDisconnected returns] return ........... RemDiscRet   *)
-(*  run loop:      pop event; new := connectedness(p); compare with last;  *)
-(*                 emit if changed or (add event and NotConnected) Notify  *)
+(*  run loop:      pop event; new := connectedness(p) ........ NotifyRead  *)
+(*                 [connectedness returns] compare with last; emit if      *)
+(*                 changed or (add event and NotConnected) ... NotifyPub   *)
+(*                 (`connectedness` is a call out of the emitter into the  *)
+(*                 swarm: whatever happens between its answer and the      *)
+(*                 publication must not be lost - a later change has its   *)
+(*                 own queued event)                                       *)
 (*  Close():       closed := TRUE (new Add/Remove calls return at once);   *)
 (*                 wait for in-flight calls; drain the queue; return        *)
 (***************************************************************************)
@@ -44,20 +49,23 @@ VARIABLES
   nConn, nDisc,         \* callbacks started per conn (observable)
   pub,        \* published PeerConnectednessChanged events: Seq(<<peer, state>>)  (observable)
   closed,     \* emitter: "open" | "closing" (Close called, waiting) | "closed" (Close returned)
+  rd,         \* the event the run loop has popped and evaluated but not yet acted on ([on |-> FALSE, ...] = none)
   op
 
-vars == <<seen, inmap, apc, rpc, queue, connected, pending, last, nConn, nDisc, pub, closed, op>>
-View == <<seen, inmap, apc, rpc, queue, connected, pending, last, nConn, nDisc, pub, closed>>
+vars == <<seen, inmap, apc, rpc, queue, connected, pending, last, nConn, nDisc, pub, closed, rd, op>>
+View == <<seen, inmap, apc, rpc, queue, connected, pending, last, nConn, nDisc, pub, closed, rd>>
 
 Cness(p, m) == IF \E c \in m : PeerOf[c] = p /\ c \notin Limited THEN "C"
                ELSE IF \E c \in m : PeerOf[c] = p THEN "L" ELSE "N"
+
+NoRd == [on |-> FALSE, p |-> "-", typ |-> "-", new |-> "-"]
 
 Init ==
   /\ seen = {} /\ inmap = {} /\ apc = [c \in Conns |-> "idle"] /\ rpc = [c \in Conns |-> "idle"]
   /\ queue = <<>> /\ connected = {} /\ pending = {}
   /\ last = [p \in Peers |-> "N"]
   /\ nConn = [c \in Conns |-> 0] /\ nDisc = [c \in Conns |-> 0]
-  /\ pub = <<>> /\ closed = "open" /\ op = [name |-> "init"]
+  /\ pub = <<>> /\ closed = "open" /\ rd = NoRd /\ op = [name |-> "init"]
 
 \* Swarm.addConn registers the connection (under conns.Lock) before calling AddConn
 Register(c) ==
@@ -65,7 +73,7 @@ Register(c) ==
   /\ seen' = seen \cup {c}
   /\ inmap' = inmap \cup {c}
   /\ op' = [name |-> "register", c |-> c]
-  /\ UNCHANGED <<apc, rpc, queue, connected, pending, last, nConn, nDisc, pub, closed>>
+  /\ UNCHANGED <<apc, rpc, queue, connected, pending, last, nConn, nDisc, pub, closed, rd>>
 
 
 \* Conn.doClose: swarm.removeConn (map removal) happens before RemoveConn is spawned
@@ -73,18 +81,18 @@ Unregister(c) ==
   /\ c \in inmap
   /\ inmap' = inmap \ {c}
   /\ op' = [name |-> "unregister", c |-> c]
-  /\ UNCHANGED <<seen, apc, rpc, queue, connected, pending, last, nConn, nDisc, pub, closed>>
+  /\ UNCHANGED <<seen, apc, rpc, queue, connected, pending, last, nConn, nDisc, pub, closed, rd>>
 
 AddStart(c) ==
   /\ apc[c] = "idle" /\ c \in seen                              \* registered before
   /\ IF closed # "open"
      THEN /\ apc' = [apc EXCEPT ![c] = "skipped"]
-          /\ UNCHANGED <<seen, queue, nConn>>
+          /\ UNCHANGED <<seen, queue, nConn, rd>>
      ELSE /\ apc' = [apc EXCEPT ![c] = "cb"]
           /\ queue' = Append(queue, <<PeerOf[c], "add">>)
           /\ nConn' = [nConn EXCEPT ![c] = @ + 1]
   /\ op' = [name |-> "addstart", c |-> c, entered |-> (closed = "open")]
-  /\ UNCHANGED <<seen, inmap, rpc, connected, pending, last, nDisc, pub, closed>>
+  /\ UNCHANGED <<seen, inmap, rpc, connected, pending, last, nDisc, pub, closed, rd>>
 
 \* onConnected returns: the critical section decides between marking connected and firing the parked
 \* disconnect
@@ -98,20 +106,20 @@ AddCbRet(c) ==
           /\ apc' = [apc EXCEPT ![c] = "done"]
           /\ nDisc' = nDisc
   /\ op' = [name |-> "addcbret", c |-> c, disc |-> (c \in pending)]
-  /\ UNCHANGED <<seen, inmap, rpc, queue, last, nConn, pub, closed>>
+  /\ UNCHANGED <<seen, inmap, rpc, queue, last, nConn, pub, closed, rd>>
 
 AddDiscRet(c) ==
   /\ apc[c] = "cbD"
   /\ apc' = [apc EXCEPT ![c] = "done"]
   /\ op' = [name |-> "adddiscret", c |-> c]
-  /\ UNCHANGED <<seen, inmap, rpc, queue, connected, pending, last, nConn, nDisc, pub, closed>>
+  /\ UNCHANGED <<seen, inmap, rpc, queue, connected, pending, last, nConn, nDisc, pub, closed, rd>>
 
 \* RemoveConn is spawned by doClose after the map removal (any time after registration)
 RemStart(c) ==
   /\ rpc[c] = "idle" /\ c \in seen /\ c \notin inmap
   /\ IF closed # "open"
      THEN /\ rpc' = [rpc EXCEPT ![c] = "skipped"]
-          /\ UNCHANGED <<seen, queue, connected, pending, nDisc>>
+          /\ UNCHANGED <<seen, queue, connected, pending, nDisc, rd>>
      ELSE /\ queue' = Append(queue, <<PeerOf[c], "rem">>)
           /\ IF c \in connected
              THEN /\ connected' = connected \ {c} /\ pending' = pending
@@ -121,24 +129,33 @@ RemStart(c) ==
                   /\ rpc' = [rpc EXCEPT ![c] = "done"]
                   /\ nDisc' = nDisc
   /\ op' = [name |-> "remstart", c |-> c, disc |-> (closed = "open" /\ c \in connected)]
-  /\ UNCHANGED <<seen, inmap, apc, last, nConn, pub, closed>>
+  /\ UNCHANGED <<seen, inmap, apc, last, nConn, pub, closed, rd>>
 
 RemDiscRet(c) ==
   /\ rpc[c] = "cbD"
   /\ rpc' = [rpc EXCEPT ![c] = "done"]
   /\ op' = [name |-> "remdiscret", c |-> c]
-  /\ UNCHANGED <<seen, inmap, apc, queue, connected, pending, last, nConn, nDisc, pub, closed>>
+  /\ UNCHANGED <<seen, inmap, apc, queue, connected, pending, last, nConn, nDisc, pub, closed, rd>>
 
-\* run loop: one event
-Notify ==
-  /\ queue # <<>>
-  /\ LET e == Head(queue)  p == e[1]  new == Cness(p, inmap)  old == last[p]
-         emit == (new # old) \/ (e[2] = "add" /\ new = "N") IN
+\* run loop, first half: one event is taken and the peer's connectedness looked up
+NotifyRead ==
+  /\ queue # <<>> /\ ~rd.on
+  /\ LET e == Head(queue) IN
      /\ queue' = Tail(queue)
+     /\ rd' = [on |-> TRUE, p |-> e[1], typ |-> e[2], new |-> Cness(e[1], inmap)]
+     /\ op' = [name |-> "notifyread", p |-> e[1], typ |-> e[2], new |-> Cness(e[1], inmap)]
+  /\ UNCHANGED <<seen, inmap, apc, rpc, connected, pending, last, nConn, nDisc, pub, closed>>
+
+\* run loop, second half: compare with the last published state and publish
+NotifyPub ==
+  /\ rd.on
+  /\ LET p == rd.p  new == rd.new  old == last[p]
+         emit == (new # old) \/ (rd.typ = "add" /\ new = "N") IN
      /\ last' = [last EXCEPT ![p] = new]
      /\ pub' = IF emit THEN Append(pub, <<p, new>>) ELSE pub
-     /\ op' = [name |-> "notify", p |-> p, typ |-> e[2], new |-> new, emitted |-> emit]
-  /\ UNCHANGED <<seen, inmap, apc, rpc, connected, pending, nConn, nDisc, closed>>
+     /\ op' = [name |-> "notifypub", p |-> p, typ |-> rd.typ, new |-> new, emitted |-> emit]
+  /\ rd' = NoRd
+  /\ UNCHANGED <<seen, inmap, apc, rpc, queue, connected, pending, nConn, nDisc, closed>>
 
 InFlight == \E c \in Conns : apc[c] \in {"cb", "cbD"} \/ rpc[c] = "cbD"
 
@@ -146,19 +163,19 @@ CloseCall ==
   /\ WithClose /\ closed = "open"
   /\ closed' = "closing"
   /\ op' = [name |-> "closecall"]
-  /\ UNCHANGED <<seen, inmap, apc, rpc, queue, connected, pending, last, nConn, nDisc, pub>>
+  /\ UNCHANGED <<seen, inmap, apc, rpc, queue, connected, pending, last, nConn, nDisc, pub, rd>>
 
 \* wg.Wait() is over, the loop has drained the queue, Close returns
 CloseRet ==
-  /\ closed = "closing" /\ ~InFlight /\ queue = <<>>
+  /\ closed = "closing" /\ ~InFlight /\ queue = <<>> /\ ~rd.on
   /\ closed' = "closed"
   /\ op' = [name |-> "closeret"]
-  /\ UNCHANGED <<seen, inmap, apc, rpc, queue, connected, pending, last, nConn, nDisc, pub>>
+  /\ UNCHANGED <<seen, inmap, apc, rpc, queue, connected, pending, last, nConn, nDisc, pub, rd>>
 
 Next ==
   \/ \E c \in Conns : Register(c) \/ Unregister(c) \/ AddStart(c) \/ AddCbRet(c) \/ AddDiscRet(c)
                       \/ RemStart(c) \/ RemDiscRet(c)
-  \/ Notify \/ CloseCall \/ CloseRet
+  \/ NotifyRead \/ NotifyPub \/ CloseCall \/ CloseRet
 
 Spec == Init /\ [][Next]_vars
 
@@ -174,7 +191,7 @@ Order == \A c \in Conns : nDisc[c] = 1 => (nConn[c] = 1 /\ apc[c] \in {"cbD", "d
 \* at quiescence: every connection whose removal ran got exactly one Disconnected (if it got a
 \* Connected), the maps are exact, and the last published state is the truth
 Quiescent == /\ \A c \in seen : apc[c] \in {"done", "skipped"} /\ (c \notin inmap => rpc[c] \in {"done", "skipped"})
-             /\ queue = <<>>
+             /\ queue = <<>> /\ ~rd.on
 Truthful ==
   (Quiescent /\ closed = "open") =>
      /\ \A p \in Peers : last[p] = Cness(p, inmap)
@@ -190,10 +207,12 @@ LastOf(p, i) == LET S == {j \in 1..(i - 1) : pub[j][1] = p} IN
 NoRepeat == \A i \in 1..Len(pub) : pub[i][2] # LastOf(pub[i][1], i) \/ pub[i][2] = "N"
 
 \* once Close has returned nothing is in flight
-CloseWaits == closed = "closed" => (~InFlight /\ queue = <<>>)
+CloseWaits == closed = "closed" => (~InFlight /\ queue = <<>> /\ ~rd.on)
 
 \* vacuity probes (expected to be violated)
 ReachParked == pending = {}
 ReachForcedN == \A i \in 1..Len(pub) : ~(pub[i][2] = "N" /\ LastOf(pub[i][1], i) = "N")
 ReachLimited == \A p \in Peers : last[p] # "L"
+\* a stale look-up is acted on: something changed between NotifyRead and NotifyPub
+ReachStaleRead == ~(rd.on /\ rd.new # Cness(rd.p, inmap))
 =============================================================================
